@@ -333,7 +333,7 @@ def q_eind(r):
 
 
 def q_list(items, ty):
-    return '[' + ';\n '.join(items) + ']' if items else '(@nil %s)' % ty
+    return '[' + ';\n '.join(items) + ']' if items else '(@nil (%s))' % ty
 
 
 def q_gen(g):
